@@ -127,7 +127,7 @@ func respell(t *rapid.T) (*gen.Style, []string, bool) {
 	st := gen.DefaultStyle()
 	var names []string
 	permute := false
-	all := []string{"newline", "indent", "comments", "multiline", "spread", "quote-names", "trailing-comma", "blank-lines", "rule-order", "space-before-colon", "empty-annotations", "mixed-annotations", "enum-item-notes", "note-on-next-line", "join-lines", "notes", "stray-notes", "blank-in-empty", "prop-after-array", "name-gap", "block-in-rules", "colon-gap", "tight-annotations", "split-annotations", "tight-comments"}
+	all := []string{"newline", "indent", "comments", "multiline", "spread", "quote-names", "trailing-comma", "blank-lines", "rule-order", "space-before-colon", "empty-annotations", "mixed-annotations", "enum-item-notes", "note-on-next-line", "join-lines", "notes", "stray-notes", "blank-in-empty", "prop-after-array", "name-gap", "block-in-rules", "colon-gap", "tight-annotations", "split-annotations", "tight-comments", "value-on-next-line"}
 	n := rapid.IntRange(1, 5).Draw(t, "nrewrites")
 	for _, r := range rapid.Permutation(all).Draw(t, "rewrites")[:n] {
 		names = append(names, r)
@@ -174,6 +174,11 @@ func respell(t *rapid.T) (*gen.Style, []string, bool) {
 			st.ColonGap = rapid.IntRange(1, 3).Draw(t, "colonGap") // tab, line break or blanks between a key and its colon
 		case "split-annotations":
 			st.SplitAnn = rapid.IntRange(1, 2).Draw(t, "splitAnn") // two annotations on one value, the first closing on a later line
+		case "value-on-next-line":
+			st.ValueNextLine = rapid.IntRange(1, 2).Draw(t, "valueNextLine") // (multi-line annotations only) a line break between a rule name and its value
+			if !st.MultiLine && st.MixedAnn == 0 {
+				st.MultiLine = true
+			}
 		case "tight-comments":
 			st.TightComments = true // user comments glued to the value before them
 			if st.Comments < 3 {
